@@ -1,2 +1,193 @@
-/-! Stub driver: the model driver for this property is not built yet. -/
-def main : IO Unit := IO.println "unimplemented"
+import JoblibModel.Config
+import JoblibModel.IOUtil
+/-! Driver for C17 (stateful: one `Global` of per-thread states per case).
+
+Tokens.  Val: `N` (None) | `i<int>` | `s<text>` (no blanks; `s` alone = "") | `b<C><L>` with
+C ∈ S T M L (backend class) and L = `N` or a natural number (nesting_level).  Slot: `_` (not given) | Val.
+A configuration / argument list is 8 slots in the order
+backend n_jobs verbose temp_folder max_nbytes mmap_mode prefer require.
+
+Requests → replies
+  reset <C> <8 Val>            new case: DEFAULT_BACKEND class, the 8 default values  → ok
+  <t> enter <8 slots>          thread t: `with parallel_config(...)` reached           → ok | raises <E>
+  <t> enterb <Val> <slot>      thread t: `with parallel_backend(backend[, n_jobs])`    → ok | raises <E>
+  <t> exit                     thread t leaves its innermost block                     → ok | bad-op
+  <t> par <8 slots>            thread t constructs Parallel(...)                       → ok <obs> | raises <E>
+  <t> gab <3 slots>            get_active_backend(prefer, require, verbose)            → ok <cls> <level> <n_jobs Val> | raises <E>
+  <t> cfg                      thread t's `_backend.config`                            → cfg <8 slots>
+  prog <8 slots> <program>     big-step `run` of a program tree from that configuration
+                               → cfg <8 slots> <raised 0/1> <ops: E X P G letters>
+     program ::= D | R | P <8 slots> program | G <3 slots> program | B <8 slots> program program | T program program
+Anything else → bad-op. -/
+open JoblibModel JoblibModel.Config JoblibModel.IOUtil
+
+def clsOfChar : Char → Option BackendClass
+  | 'S' => some .sequential | 'T' => some .threading | 'M' => some .multiprocessing | 'L' => some .loky
+  | _ => none
+
+def parseVal (tok : String) : Option Val :=
+  match tok.toList with
+  | ['N'] => some .none
+  | 'i' :: r => (String.ofList r).toInt?.map Val.int
+  | 's' :: r => some (.str (String.ofList r))
+  | 'b' :: c :: r =>
+    match clsOfChar c, r with
+    | some cls, ['N'] => some (.backend cls none)
+    | some cls, r => (String.ofList r).toNat?.map (fun l => Val.backend cls (some l))
+    | none, _ => none
+  | _ => none
+
+/-- `none` = malformed; `some none` = `_`. -/
+def parseSlot (tok : String) : Option Slot :=
+  if tok = "_" then some none else (parseVal tok).map some
+
+def parseConfig : List String → Option (Config × List String)
+  | a :: b :: c :: d :: e :: f :: g :: h :: rest => do
+    let a ← parseSlot a; let b ← parseSlot b; let c ← parseSlot c; let d ← parseSlot d
+    let e ← parseSlot e; let f ← parseSlot f; let g ← parseSlot g; let h ← parseSlot h
+    pure (⟨a, b, c, d, e, f, g, h⟩, rest)
+  | _ => none
+
+def parseDefaults : List String → Option Defaults
+  | [a, b, c, d, e, f, g, h] => do
+    let a ← parseVal a; let b ← parseVal b; let c ← parseVal c; let d ← parseVal d
+    let e ← parseVal e; let f ← parseVal f; let g ← parseVal g; let h ← parseVal h
+    pure ⟨a, b, c, d, e, f, g, h⟩
+  | _ => none
+
+def clsLetter : BackendClass → String
+  | .sequential => "S" | .threading => "T" | .multiprocessing => "M" | .loky => "L"
+
+def showLevel : Option Nat → String
+  | none => "N" | some l => toString l
+
+def showVal : Val → String
+  | .none => "N"
+  | .int i => "i" ++ toString i
+  | .str s => "s" ++ s
+  | .backend c l => "b" ++ clsLetter c ++ showLevel l
+
+def showSlot : Slot → String
+  | none => "_" | some v => showVal v
+
+def showConfig (c : Config) : String :=
+  joinSp [showSlot c.backend, showSlot c.n_jobs, showSlot c.verbose, showSlot c.temp_folder,
+    showSlot c.max_nbytes, showSlot c.mmap_mode, showSlot c.prefer, showSlot c.require]
+
+def showPar : Except Err ParObs → String
+  | .error e => "raises " ++ e.name
+  | .ok r => joinSp ["ok", r.backend.cls.name, showLevel r.backend.level, toString r.n_jobs,
+      showVal r.verbose, showVal r.max_nbytes, showVal r.temp_folder, showVal r.mmap_mode,
+      showVal r.prefer, showVal r.require, toString r.kw_verbose, if r.msg then "1" else "0"]
+
+def showGab : Except Err GabObs → String
+  | .error e => "raises " ++ e.name
+  | .ok r => joinSp ["ok", r.backend.cls.name, showLevel r.backend.level, showVal r.n_jobs]
+
+def showOut : Out → String
+  | .entered => "ok"
+  | .enterRaised e => "raises " ++ e.name
+  | .exited => "ok"
+  | .badExit => "bad-op"
+  | .par r => showPar r
+  | .gab r => showGab r
+
+/-- Recursive-descent parser for program trees (fuel = number of tokens + 1). -/
+def parseProg : Nat → List String → Option (Prog × List String)
+  | 0, _ => none
+  | fuel + 1, toks =>
+    match toks with
+    | "D" :: rest => some (.done, rest)
+    | "R" :: rest => some (.raise, rest)
+    | "P" :: rest => do
+      let (e, rest) ← parseConfig rest
+      let (k, rest) ← parseProg fuel rest
+      pure (.par e k, rest)
+    | "G" :: p :: r :: v :: rest => do
+      let p ← parseSlot p; let r ← parseSlot r; let v ← parseSlot v
+      let (k, rest) ← parseProg fuel rest
+      pure (.gab p r v k, rest)
+    | "B" :: rest => do
+      let (a, rest) ← parseConfig rest
+      let (body, rest) ← parseProg fuel rest
+      let (k, rest) ← parseProg fuel rest
+      pure (.block a body k, rest)
+    | "T" :: rest => do
+      let (body, rest) ← parseProg fuel rest
+      let (k, rest) ← parseProg fuel rest
+      pure (.try_ body k, rest)
+    | _ => none
+
+def opLetter : Op → String
+  | .enter _ => "E" | .exit => "X" | .par _ => "P" | .gab _ _ _ => "G"
+
+structure St where
+  env : Env
+  g : Global
+
+def threadOp (st : St) (t : Nat) (op : Op) : St × String :=
+  let (g', o) := gstep st.env st.g t op
+  ({ st with g := g' }, showOut o)
+
+def handleThread (st : St) (t : Nat) (cmd : String) (rest : List String) : St × String :=
+  if cmd = "enter" then
+    match parseConfig rest with
+    | some (a, []) => threadOp st t (.enter a)
+    | _ => (st, "bad-op")
+  else if cmd = "enterb" then
+    match rest with
+    | [b, n] =>
+      match parseVal b, parseSlot n with
+      | some b, some n => threadOp st t (.enter (parallelBackendArgs b n))
+      | _, _ => (st, "bad-op")
+    | _ => (st, "bad-op")
+  else if cmd = "exit" then
+    match rest with
+    | [] => threadOp st t .exit
+    | _ => (st, "bad-op")
+  else if cmd = "par" then
+    match parseConfig rest with
+    | some (e, []) => threadOp st t (.par e)
+    | _ => (st, "bad-op")
+  else if cmd = "gab" then
+    match rest with
+    | [p, r, v] =>
+      match parseSlot p, parseSlot r, parseSlot v with
+      | some p, some r, some v => threadOp st t (.gab p r v)
+      | _, _, _ => (st, "bad-op")
+    | _ => (st, "bad-op")
+  else if cmd = "cfg" then
+    match rest with
+    | [] => (st, "cfg " ++ showConfig (st.g t).cfg)
+    | _ => (st, "bad-op")
+  else (st, "bad-op")
+
+/-- No case is open before the first `reset`: thread requests are then malformed. -/
+def handle (st : Option St) (line : String) : Option St × String :=
+  match tokens line with
+  | "reset" :: c :: rest =>
+    match c.toList, parseDefaults rest with
+    | [ch], some d =>
+      match clsOfChar ch with
+      | some cls => (some ⟨⟨cls, d⟩, fun _ => TState.init⟩, "ok")
+      | none => (st, "bad-op")
+    | _, _ => (st, "bad-op")
+  | "prog" :: rest =>
+    match parseConfig rest with
+    | some (c, rest) =>
+      match parseProg (rest.length + 1) rest with
+      | some (p, []) =>
+        let r := run p c
+        (st, joinSp ["cfg", showConfig r.cfg, if r.raised then "1" else "0",
+          String.join (r.ops.map opLetter)])
+      | _ => (st, "bad-op")
+    | none => (st, "bad-op")
+  | t :: cmd :: rest =>
+    match t.toNat?, st with
+    | some t, some s =>
+      let (s', out) := handleThread s t cmd rest
+      (some s', out)
+    | _, _ => (st, "bad-op")
+  | _ => (st, "bad-op")
+
+def main : IO Unit := stateLoop (none : Option St) handle
